@@ -1,7 +1,766 @@
-//! C37: not implemented yet.
-use crate::Args;
+//! C37: group commit completes every commit exactly once.
+//!
+//! Real threads use `GroupCommitQueue` exactly as `transaction.rs::execute_small_commit` does
+//! (submit_and_wait -> if Ok take_pending -> if Some(batch): flush every payload -> complete_batch /
+//! fail_batch -> return). The "WAL" is a harness log under a mutex. Every thread records call/return
+//! events with a global sequence counter (call event before invoking, return event after), the
+//! log records a write event per payload, and an offline checker judges the merged event list:
+//! exactly_once, written_before_ack, failure_reported_to_all, no_stuck.
+//!
+//! Besides perturbed random rounds there are two directed rounds that steer three threads through
+//! the library's own yield points into the schedule "elected leader's payload is taken by a
+//! committer that already finished" (every gate has a deadline, so a repaired queue cannot hang it).
 
-pub fn run(_a: &Args) -> i32 {
-    println!("INCONCLUSIVE property=C37 reason=check not implemented yet");
-    2
+use super::c35::{sched, Viol};
+use crate::report::{catch, panic_site, Ctx};
+use crate::rng::Rng;
+use crate::Args;
+use parking_lot::Mutex;
+use serde_json::{json, Value};
+use smallvec::SmallVec;
+use std::collections::{BTreeMap, HashMap, HashSet};
+use std::sync::atomic::{AtomicBool, AtomicU64, Ordering::SeqCst};
+use std::sync::Arc;
+use std::time::{Duration, Instant};
+use turdb::database::group_commit::{CommitPayload, GroupCommitConfig, GroupCommitQueue, PendingCommit};
+use turdb::memory::PageBufferPool;
+
+#[derive(Clone, Debug)]
+enum Ev {
+    Call,
+    SubmitRet { ok: bool, timeout: bool },
+    TakeNone,
+    Take { ids: Vec<u64> },
+    FlushEnd { ok: bool },
+    BatchDone { ok: bool },
+    Return { ok: bool },
+}
+
+#[derive(Clone, Debug)]
+struct E {
+    seq: u64,
+    t: usize,
+    /// the commit (payload id) whose emulated execute_small_commit produced the event
+    p: u64,
+    ev: Ev,
+    us: u64,
+}
+
+#[derive(Clone, Debug)]
+struct W {
+    seq: u64,
+    id: u64,
+    t: usize,
+    by: u64,
+}
+
+struct Rd<'a> {
+    q: &'a GroupCommitQueue,
+    pool: &'a PageBufferPool,
+    seq: &'a AtomicU64,
+    log: &'a Mutex<Vec<W>>,
+    sh: &'a Arc<sched::RoundShared>,
+    t0: Instant,
+    fail_permille: u32,
+    /// directed rounds: the flush of this thread fails at position 0
+    fail_thread: Option<usize>,
+    max_entries: usize,
+    round: u64,
+}
+
+fn build_payload(rd: &Rd, id: u64, n: usize) -> Option<CommitPayload> {
+    let mut p: CommitPayload = SmallVec::new();
+    for j in 0..n {
+        let mut b = rd.pool.acquire()?;
+        b[0..8].copy_from_slice(&id.to_le_bytes());
+        b[8..16].copy_from_slice(&(j as u64).to_le_bytes());
+        b[16..24].copy_from_slice(&(n as u64).to_le_bytes());
+        p.push(((id >> 20) as u32, (id & 0xFFFFF) as u32, b, n as u32));
+    }
+    Some(p)
+}
+
+/// payload id as carried in the page bytes; Err if table/page/db_size/bytes disagree
+fn decode_payload(c: &PendingCommit) -> Result<u64, String> {
+    let first = c.payload.first().ok_or("empty payload in queue")?;
+    let id = u64::from_le_bytes(first.2[0..8].try_into().unwrap());
+    let n = c.payload.len();
+    for (j, (table_id, page_no, buf, db_size)) in c.payload.iter().enumerate() {
+        let bid = u64::from_le_bytes(buf[0..8].try_into().unwrap());
+        let bj = u64::from_le_bytes(buf[8..16].try_into().unwrap());
+        let bn = u64::from_le_bytes(buf[16..24].try_into().unwrap());
+        if bid != id || bj != j as u64 || bn != n as u64 || *table_id != (id >> 20) as u32 || *page_no != (id & 0xFFFFF) as u32 || *db_size != n as u32 {
+            return Err(format!("entry {} of payload {} is inconsistent", j, id));
+        }
+    }
+    Ok(id)
+}
+
+#[derive(Default)]
+struct ThreadOut {
+    evs: Vec<E>,
+    viols: Vec<Viol>,
+    points: Vec<(&'static str, u64)>,
+    pool_exhausted: u64,
+}
+
+fn ev(rd: &Rd, out: &mut Vec<E>, t: usize, p: u64, e: Ev) {
+    let seq = rd.seq.fetch_add(1, SeqCst);
+    out.push(E { seq, t, p, ev: e, us: rd.t0.elapsed().as_micros() as u64 });
+}
+
+/// the harness's WAL: append the ids of the batch under the log mutex; like execute_group_wal_flush it
+/// stops at the first failing payload (earlier ones stay written)
+fn flush(rd: &Rd, batch: &[Arc<PendingCommit>], t: usize, by: u64, fail_at: Option<usize>, viols: &mut Vec<Viol>) -> Result<(), String> {
+    sched::point("h.flush_begin");
+    let mut log = rd.log.lock();
+    sched::point("h.flush_io");
+    for (j, c) in batch.iter().enumerate() {
+        if Some(j) == fail_at {
+            return Err("injected WAL write failure".into());
+        }
+        match decode_payload(c) {
+            Ok(id) => {
+                let seq = rd.seq.fetch_add(1, SeqCst);
+                log.push(W { seq, id, t, by });
+            }
+            Err(m) => {
+                if viols.len() < 3 {
+                    viols.push(Viol { assertion: "payload_intact", sig: "C37/payload_intact/queued_payload_differs_from_submitted".into(), detail: json!({"what": m, "round": rd.round}) });
+                }
+            }
+        }
+    }
+    Ok(())
+}
+
+/// one emulated `execute_small_commit`
+fn commit(rd: &Rd, t: usize, id: u64, rng: &mut Rng, out: &mut ThreadOut) {
+    let n = 1 + rng.below(rd.max_entries as u64) as usize;
+    let Some(payload) = build_payload(rd, id, n) else {
+        // harness resource limit, not a verdict (buffers stay with a batch until its flusher drops it)
+        out.pool_exhausted += 1;
+        return;
+    };
+    sched::point("h.after_capture");
+    sched::window_enter(rd.sh);
+    ev(rd, &mut out.evs, t, id, Ev::Call);
+    let r = catch(|| rd.q.submit_and_wait(payload));
+    match r {
+        Ok(Ok(_batch_id)) => {
+            ev(rd, &mut out.evs, t, id, Ev::SubmitRet { ok: true, timeout: false });
+            sched::point("h.before_take");
+            let taken = catch(|| rd.q.take_pending());
+            sched::point("h.after_take");
+            match taken {
+                Ok(Some(batch)) => {
+                    let ids: Vec<u64> = batch.iter().map(|c| decode_payload(c).unwrap_or(u64::MAX)).collect();
+                    let len = batch.len();
+                    ev(rd, &mut out.evs, t, id, Ev::Take { ids });
+                    let fail_at = if rd.fail_thread == Some(t) {
+                        Some(0)
+                    } else if rd.fail_permille > 0 && rng.below(1000) < rd.fail_permille as u64 {
+                        Some(rng.below(len as u64) as usize)
+                    } else {
+                        None
+                    };
+                    let res = flush(rd, &batch, t, id, fail_at, &mut out.viols);
+                    ev(rd, &mut out.evs, t, id, Ev::FlushEnd { ok: res.is_ok() });
+                    sched::point("h.before_complete");
+                    let done = catch(|| match &res {
+                        Ok(()) => rd.q.complete_batch(&batch),
+                        Err(e) => rd.q.fail_batch(&batch, e),
+                    });
+                    if let Err(pn) = done {
+                        out.viols.push(Viol { assertion: "no_panic", sig: format!("C37/no_panic/complete_or_fail_batch_panicked@{}", panic_site(&pn)), detail: json!({"panic": pn, "round": rd.round}) });
+                    }
+                    ev(rd, &mut out.evs, t, id, Ev::BatchDone { ok: res.is_ok() });
+                    drop(batch);
+                    // `result?` in execute_small_commit: the flusher of a failed batch returns the error
+                    ev(rd, &mut out.evs, t, id, Ev::Return { ok: res.is_ok() });
+                }
+                Ok(None) => {
+                    ev(rd, &mut out.evs, t, id, Ev::TakeNone);
+                    ev(rd, &mut out.evs, t, id, Ev::Return { ok: true });
+                }
+                Err(pn) => {
+                    out.viols.push(Viol { assertion: "no_panic", sig: format!("C37/no_panic/take_pending_panicked@{}", panic_site(&pn)), detail: json!({"panic": pn, "round": rd.round}) });
+                    ev(rd, &mut out.evs, t, id, Ev::Return { ok: false });
+                }
+            }
+        }
+        Ok(Err(e)) => {
+            ev(rd, &mut out.evs, t, id, Ev::SubmitRet { ok: false, timeout: e.contains("timeout") });
+            ev(rd, &mut out.evs, t, id, Ev::Return { ok: false });
+        }
+        Err(pn) => {
+            out.viols.push(Viol { assertion: "no_panic", sig: format!("C37/no_panic/submit_and_wait_panicked@{}", panic_site(&pn)), detail: json!({"panic": pn, "round": rd.round}) });
+            ev(rd, &mut out.evs, t, id, Ev::Return { ok: false });
+        }
+    }
+    sched::window_exit(rd.sh);
+}
+
+// ------------------------------------------------------------------------------------------------
+// offline checker
+// ------------------------------------------------------------------------------------------------
+#[derive(Default)]
+struct Checked {
+    viols: Vec<Viol>,
+    c: BTreeMap<&'static str, u64>,
+}
+
+impl Checked {
+    fn bump(&mut self, k: &'static str, n: u64) {
+        *self.c.entry(k).or_insert(0) += n;
+    }
+    fn viol(&mut self, assertion: &'static str, sig: &str, detail: Value) {
+        self.bump("sub_assertion_failures", 1);
+        // one witness per signature and round is enough
+        if !self.viols.iter().any(|v| v.sig == sig) {
+            self.viols.push(Viol { assertion, sig: sig.to_string(), detail });
+        }
+    }
+}
+
+fn show(e: &E) -> String {
+    let what = match &e.ev {
+        Ev::Call => format!("commit {}: calls submit_and_wait", e.p),
+        Ev::SubmitRet { ok, timeout } => format!("commit {}: submit_and_wait returned {}", e.p, if *ok { "Ok" } else if *timeout { "Err(group commit timeout)" } else { "Err" }),
+        Ev::TakeNone => format!("commit {}: take_pending returned None", e.p),
+        Ev::Take { ids } => format!("commit {}: take_pending returned batch {:?}", e.p, ids),
+        Ev::FlushEnd { ok } => format!("commit {}: flush of its batch {}", e.p, if *ok { "succeeded" } else { "FAILED" }),
+        Ev::BatchDone { ok } => format!("commit {}: {} returned", e.p, if *ok { "complete_batch" } else { "fail_batch" }),
+        Ev::Return { ok } => format!("commit {}: execute_small_commit returns {}", e.p, if *ok { "Ok (caller told: committed)" } else { "Err" }),
+    };
+    format!("#{} T{} {}", e.seq, e.t, what)
+}
+
+/// events that concern commit `p` and the commit `q` whose submitter flushed it, in sequence order
+fn witness(evs: &[E], writes: &[W], p: u64, q: Option<u64>) -> Vec<String> {
+    let mut items: Vec<(u64, String)> = vec![];
+    for e in evs {
+        if e.p == p || Some(e.p) == q {
+            items.push((e.seq, show(e)));
+        }
+    }
+    for w in writes {
+        if w.id == p {
+            items.push((w.seq, format!("#{} T{} WAL write of payload {} (flusher: commit {})", w.seq, w.t, w.id, w.by)));
+        }
+    }
+    items.sort();
+    items.into_iter().map(|x| x.1).collect()
+}
+
+struct Final {
+    pending: usize,
+    flush_in_progress: bool,
+    env_stalled: bool,
+}
+
+fn check(evs: &[E], writes: &[W], fin: &Final, round: u64, params: &str) -> Checked {
+    let mut ck = Checked::default();
+    let mut submit_ret: HashMap<u64, (u64, bool, bool)> = HashMap::new();
+    let mut ret: HashMap<u64, (u64, bool)> = HashMap::new();
+    let mut own_take: HashMap<u64, Option<Vec<u64>>> = HashMap::new();
+    let mut taken_by: HashMap<u64, Vec<(u64, u64)>> = HashMap::new(); // p -> [(take seq, taker commit)]
+    let mut flush_ok: HashMap<u64, bool> = HashMap::new(); // taker commit -> result
+    let mut batch_done: HashMap<u64, u64> = HashMap::new(); // taker commit -> seq
+    let mut batch_of: HashMap<u64, Vec<u64>> = HashMap::new();
+    let mut commits: Vec<u64> = vec![];
+    for e in evs {
+        match &e.ev {
+            Ev::Call => commits.push(e.p),
+            Ev::SubmitRet { ok, timeout } => {
+                submit_ret.insert(e.p, (e.seq, *ok, *timeout));
+            }
+            Ev::TakeNone => {
+                own_take.insert(e.p, None);
+            }
+            Ev::Take { ids } => {
+                own_take.insert(e.p, Some(ids.clone()));
+                batch_of.insert(e.p, ids.clone());
+                ck.bump("batches", 1);
+                if ids.len() >= 2 {
+                    ck.bump("batches_with_2_or_more_commits", 1);
+                }
+                for id in ids {
+                    taken_by.entry(*id).or_default().push((e.seq, e.p));
+                    if *id != e.p {
+                        ck.bump("commits_flushed_by_another_committer", 1);
+                    }
+                }
+                if !ids.contains(&e.p) {
+                    ck.bump("batches_not_containing_the_flushers_own_commit", 1);
+                }
+            }
+            Ev::FlushEnd { ok } => {
+                flush_ok.insert(e.p, *ok);
+                if !*ok {
+                    ck.bump("failed_batches", 1);
+                }
+            }
+            Ev::BatchDone { .. } => {
+                batch_done.insert(e.p, e.seq);
+            }
+            Ev::Return { ok } => {
+                ret.insert(e.p, (e.seq, *ok));
+            }
+        }
+    }
+    let mut wr: HashMap<u64, Vec<&W>> = HashMap::new();
+    for w in writes {
+        wr.entry(w.id).or_default().push(w);
+    }
+    ck.bump("commits", commits.len() as u64);
+    let subcase = |p: u64| -> &'static str {
+        match own_take.get(&p) {
+            Some(None) => "submitter's own take_pending returned None",
+            Some(Some(ids)) if !ids.contains(&p) => "submitter was elected and flushed a batch that does not contain its own commit",
+            Some(Some(_)) => "submitter flushed its own commit",
+            None => "submitter never reached take_pending",
+        }
+    };
+    for &p in &commits {
+        let Some(&(rseq, rok)) = ret.get(&p) else { continue };
+        let ws = wr.get(&p).map(|v| v.as_slice()).unwrap_or(&[]);
+        let takers = taken_by.get(&p).cloned().unwrap_or_default();
+        let taker = takers.first().map(|x| x.1);
+        let foreign = taker.map(|q| q != p).unwrap_or(false);
+        if rok {
+            ck.bump("commits_acked", 1);
+        } else {
+            ck.bump("commits_reported_failed", 1);
+        }
+        // ---- exactly_once ------------------------------------------------------------------------
+        if ws.len() > 1 || takers.len() > 1 {
+            ck.viol(
+                "exactly_once",
+                if takers.len() > 1 { "C37/exactly_once/payload_taken_into_two_batches" } else { "C37/exactly_once/payload_written_more_than_once" },
+                json!({"payload": p, "writes": ws.len(), "batches": takers.len(), "witness": witness(evs, writes, p, taker), "round": round, "params": params}),
+            );
+        }
+        if rok && ws.is_empty() {
+            let failed_foreign = foreign && taker.and_then(|q| flush_ok.get(&q)).map(|ok| !*ok).unwrap_or(false);
+            let sig = if failed_foreign {
+                "C37/exactly_once/acked_commit_never_written_its_batch_failed_in_another_flusher"
+            } else if takers.is_empty() {
+                "C37/exactly_once/acked_commit_never_taken_by_any_flusher"
+            } else {
+                "C37/exactly_once/acked_commit_never_written"
+            };
+            if failed_foreign {
+                ck.bump("acked_but_never_written", 1);
+            }
+            ck.viol("exactly_once", sig, json!({"payload": p, "case": subcase(p), "witness": witness(evs, writes, p, taker), "round": round, "params": params}));
+        }
+        // ---- written_before_ack ------------------------------------------------------------------
+        if rok {
+            if let Some(w) = ws.first() {
+                if w.seq > rseq {
+                    ck.bump("acked_before_written", 1);
+                    match own_take.get(&p) {
+                        Some(None) => ck.bump("acked_before_written_own_take_none", 1),
+                        Some(Some(_)) => ck.bump("acked_before_written_own_take_other_batch", 1),
+                        None => {}
+                    }
+                    let sig = if foreign { "C37/written_before_ack/ok_returned_while_payload_is_in_the_batch_of_another_flusher" } else { "C37/written_before_ack/own_batch_written_after_return" };
+                    ck.viol(
+                        "written_before_ack",
+                        sig,
+                        json!({"payload": p, "ok_return_seq": rseq, "wal_write_seq": w.seq, "flushed_by_commit": w.by, "case": subcase(p), "witness": witness(evs, writes, p, taker), "round": round, "params": params}),
+                    );
+                }
+            }
+        }
+    }
+    // ---- failure_reported_to_all -------------------------------------------------------------------
+    for (q, ok) in &flush_ok {
+        if *ok {
+            continue;
+        }
+        for p in batch_of.get(q).map(|v| v.as_slice()).unwrap_or(&[]) {
+            if let Some(&(_, true)) = ret.get(p) {
+                let sig = if p != q { "C37/failure_reported_to_all/ok_returned_while_payload_is_in_the_batch_of_another_flusher" } else { "C37/failure_reported_to_all/flusher_of_failed_batch_reported_ok" };
+                ck.bump("failed_batch_member_told_ok", 1);
+                ck.viol("failure_reported_to_all", sig, json!({"payload": p, "failed_batch_of_commit": q, "batch": batch_of.get(q), "case": subcase(*p), "witness": witness(evs, writes, *p, Some(*q)), "round": round, "params": params}));
+            }
+        }
+    }
+    // ---- no_stuck ----------------------------------------------------------------------------------
+    let mut timeouts = 0u64;
+    for &p in &commits {
+        let Some(&(sseq, ok, timeout)) = submit_ret.get(&p) else { continue };
+        if ok || !timeout {
+            continue;
+        }
+        timeouts += 1;
+        if fin.env_stalled {
+            continue;
+        }
+        let takers = taken_by.get(&p).cloned().unwrap_or_default();
+        let before: Option<&(u64, u64)> = takers.iter().find(|(s, _)| *s < sseq);
+        match before {
+            None => ck.viol("no_stuck", "C37/no_stuck/commit_timed_out_while_nobody_flushed_it", json!({"payload": p, "witness": witness(evs, writes, p, takers.first().map(|x| x.1)), "round": round, "params": params})),
+            Some((_, q)) => {
+                if batch_done.get(q).map(|d| *d < sseq).unwrap_or(false) {
+                    ck.viol("no_stuck", "C37/no_stuck/commit_timed_out_although_its_batch_was_completed", json!({"payload": p, "witness": witness(evs, writes, p, Some(*q)), "round": round, "params": params}));
+                } else {
+                    ck.bump("timeouts_flusher_slower_than_timeout_not_judged", 1);
+                }
+            }
+        }
+    }
+    ck.bump("timeouts", timeouts);
+    if fin.env_stalled && timeouts > 0 {
+        ck.bump("rounds_with_timeouts_not_judged_environment_stalled", 1);
+    }
+    if timeouts == 0 {
+        if fin.pending != 0 {
+            ck.viol("no_stuck", "C37/no_stuck/commits_left_in_pending_after_all_committers_returned", json!({"pending": fin.pending, "flush_in_progress": fin.flush_in_progress, "round": round, "params": params}));
+        }
+        if fin.flush_in_progress {
+            ck.viol("no_stuck", "C37/no_stuck/flush_in_progress_left_set_after_all_committers_returned", json!({"pending": fin.pending, "round": round, "params": params}));
+        }
+    }
+    ck
+}
+
+// ------------------------------------------------------------------------------------------------
+// rounds
+// ------------------------------------------------------------------------------------------------
+struct RoundOut {
+    fp: u64,
+    events: u64,
+    overlapped: bool,
+    ck: Checked,
+    points: Vec<(&'static str, u64)>,
+    sample: Option<Value>,
+    strat: String,
+    reproduced: bool,
+}
+
+fn finish_round(q: &GroupCommitQueue, outs: Vec<ThreadOut>, log: Vec<W>, sh: &sched::RoundShared, stalls0: u64, round: u64, params: String, strat: String, want_sample: bool) -> RoundOut {
+    let mut evs: Vec<E> = vec![];
+    let mut viols = vec![];
+    let mut points: Vec<(&'static str, u64)> = vec![];
+    let mut pool_exhausted = 0;
+    for o in outs {
+        pool_exhausted += o.pool_exhausted;
+        evs.extend(o.evs);
+        viols.extend(o.viols);
+        for (n, c) in o.points {
+            match points.iter_mut().find(|(m, _)| *m == n) {
+                Some(e) => e.1 += c,
+                None => points.push((n, c)),
+            }
+        }
+    }
+    evs.sort_by_key(|e| e.seq);
+    let (pending, fip) = q.verif_state();
+    let fin = Final { pending, flush_in_progress: fip, env_stalled: sched::stalls() != stalls0 };
+    let mut ck = check(&evs, &log, &fin, round, &params);
+    for v in viols {
+        ck.viol(v.assertion, &v.sig.clone(), v.detail);
+    }
+    ck.bump("harness_buffer_pool_exhausted_commit_skipped", pool_exhausted);
+    let reproduced = ck.c.get("acked_before_written").copied().unwrap_or(0) > 0 || ck.c.get("failed_batch_member_told_ok").copied().unwrap_or(0) > 0;
+    let sample = if want_sample {
+        let mut items: Vec<(u64, String)> = evs.iter().map(|e| (e.seq, show(e))).collect();
+        items.extend(log.iter().map(|w| (w.seq, format!("#{} T{} WAL write of payload {} (flusher: commit {})", w.seq, w.t, w.id, w.by))));
+        items.sort();
+        Some(json!({"round": round, "params": params, "first_events": items.into_iter().take(40).map(|x| x.1).collect::<Vec<_>>()}))
+    } else {
+        None
+    };
+    RoundOut { fp: sh.fp.load(SeqCst), events: sh.events.load(SeqCst), overlapped: sh.overlap_events.load(SeqCst) > 0, ck, points, sample, strat, reproduced }
+}
+
+fn run_round(seed: u64, round: u64, quick: bool) -> RoundOut {
+    let miri = cfg!(miri);
+    let mut rng = Rng::derive(seed ^ round.wrapping_mul(0x9FB21C651E98DF25), 37);
+    let threads = if miri { rng.usize(2, 3) } else { *rng.pick(&[2usize, 2, 3, 3, 3, 4, 4, 6, 8]) };
+    let commits = if miri { rng.usize(2, 4) } else if quick { rng.usize(3, 20) } else { rng.usize(3, 40) };
+    let cfg_kind = rng.below(4);
+    let config = match cfg_kind {
+        0 | 1 => GroupCommitConfig::default(),
+        2 => GroupCommitConfig::low_latency(),
+        _ => GroupCommitConfig { max_batch_size: 2, max_wait_us: 50, min_batch_size: 1 },
+    };
+    let fail_permille = if rng.chance(2, 5) { *rng.pick(&[60u32, 250, 500]) } else { 0 };
+    let max_entries = if miri { 1 } else { rng.usize(1, 3) };
+    let think = rng.below(4);
+    let profile = rng.below(4);
+    let params = format!("threads={} commits_per_thread={} config={:?} flush_fail_permille={} entries<= {} think={} perturb_profile={}", threads, commits, config, fail_permille, max_entries, think, profile);
+    let strat = format!("t{}k{}f{}p{}", threads, cfg_kind, (fail_permille > 0) as u8, profile);
+    let q = GroupCommitQueue::new(config);
+    let pool = PageBufferPool::new(threads * max_entries * 4 + 4);
+    let seqc = AtomicU64::new(0);
+    let log = Mutex::new(Vec::new());
+    let sh = sched::RoundShared::new(profile, None);
+    let stalls0 = sched::stalls();
+    let rd = Rd { q: &q, pool: &pool, seq: &seqc, log: &log, sh: &sh, t0: Instant::now(), fail_permille, fail_thread: None, max_entries, round };
+    let barrier = std::sync::Barrier::new(threads);
+    let outs: Vec<ThreadOut> = std::thread::scope(|s| {
+        let hs: Vec<_> = (0..threads)
+            .map(|t| {
+                let rd = &rd;
+                let barrier = &barrier;
+                s.spawn(move || {
+                    let mut out = ThreadOut::default();
+                    let mut rng = Rng::derive(seed ^ round.wrapping_mul(0x2545F4914F6CDD1D), 37_000 + t as u64);
+                    sched::enter(rd.sh, t, seed, round);
+                    barrier.wait();
+                    for i in 0..commits {
+                        for _ in 0..rng.below(think + 1) {
+                            sched::point("h.think");
+                        }
+                        commit(rd, t, (t as u64 + 1) * 1000 + i as u64 + 1, &mut rng, &mut out);
+                    }
+                    out.points = sched::leave();
+                    out
+                })
+            })
+            .collect();
+        hs.into_iter().map(|h| h.join().unwrap_or(ThreadOut { viols: vec![Viol { assertion: "no_panic", sig: "C37/no_panic/harness_worker_panicked".into(), detail: json!({"round": round}) }], ..Default::default() })).collect()
+    });
+    let logv = std::mem::take(&mut *log.lock());
+    finish_round(&q, outs, logv, &sh, stalls0, round, params, strat, round < 2)
+}
+
+fn wait_flag(f: &AtomicBool, max: Duration) -> bool {
+    let t = Instant::now();
+    let mut spins = 0u64;
+    while !f.load(SeqCst) {
+        spins += 1;
+        if spins % 64 == 0 && t.elapsed() > max {
+            return false;
+        }
+        std::thread::yield_now();
+    }
+    true
+}
+
+/// Directed schedule. T0 (commit 1001) is the first leader and flushes [1001, 2001]; T1 (commit 2001),
+/// already completed, is held on its way to take_pending; T2 (commit 3001) is elected leader and held
+/// before its take_pending; T1 takes [3001] and is held before writing; T2's take_pending returns None.
+fn run_directed(seed: u64, round: u64, fail_in_t1: bool) -> RoundOut {
+    #[derive(Default)]
+    struct Flags {
+        l0_elected: AtomicBool,
+        b_enq: AtomicBool,
+        l0_returned: AtomicBool,
+        b_waitret: AtomicBool,
+        a_elected: AtomicBool,
+        b_take_done: AtomicBool,
+        a_returned: AtomicBool,
+    }
+    let fl = Arc::new(Flags::default());
+    let gate_max = if cfg!(miri) { Duration::from_secs(20) } else { Duration::from_millis(1500) };
+    let hold_max = if cfg!(miri) { Duration::from_secs(5) } else { Duration::from_millis(400) };
+    let extra: sched::Extra = {
+        let fl = Arc::clone(&fl);
+        Arc::new(move |tidx, _tag, name| match (tidx, name) {
+            (0, "gc.wait_returned") => {
+                fl.l0_elected.store(true, SeqCst);
+                wait_flag(&fl.b_enq, gate_max);
+                // give T1 time to go to sleep on the condition variable (it saw flush_in_progress)
+                for _ in 0..50 {
+                    std::thread::yield_now();
+                }
+            }
+            (1, "gc.enqueued") => fl.b_enq.store(true, SeqCst),
+            (1, "gc.wait_returned") => {
+                fl.b_waitret.store(true, SeqCst);
+                wait_flag(&fl.a_elected, gate_max);
+            }
+            (2, "gc.wait_returned") => {
+                fl.a_elected.store(true, SeqCst);
+                wait_flag(&fl.b_take_done, gate_max);
+            }
+            (1, "h.after_take") => fl.b_take_done.store(true, SeqCst),
+            // T1 holds the batch it took and has not written it yet
+            (1, "h.flush_begin") => {
+                wait_flag(&fl.a_returned, hold_max);
+            }
+            _ => {}
+        })
+    };
+    let q = GroupCommitQueue::with_default_config();
+    let pool = PageBufferPool::new(6);
+    let seqc = AtomicU64::new(0);
+    let log = Mutex::new(Vec::new());
+    // no random perturbation in the directed rounds
+    let sh = sched::RoundShared::new(sched::QUIET, Some(extra));
+    let stalls0 = sched::stalls();
+    let rd = Rd { q: &q, pool: &pool, seq: &seqc, log: &log, sh: &sh, t0: Instant::now(), fail_permille: 0, fail_thread: if fail_in_t1 { Some(1) } else { None }, max_entries: 1, round };
+    let outs: Vec<ThreadOut> = std::thread::scope(|s| {
+        let hs: Vec<_> = (0..3usize)
+            .map(|t| {
+                let rd = &rd;
+                let fl = &fl;
+                s.spawn(move || {
+                    let mut out = ThreadOut::default();
+                    let mut rng = Rng::derive(seed, 37_900 + t as u64);
+                    sched::enter(rd.sh, t, seed, round);
+                    match t {
+                        0 => {
+                            commit(rd, 0, 1001, &mut rng, &mut out);
+                            fl.l0_returned.store(true, SeqCst);
+                        }
+                        1 => {
+                            wait_flag(&fl.l0_elected, gate_max);
+                            commit(rd, 1, 2001, &mut rng, &mut out);
+                        }
+                        _ => {
+                            wait_flag(&fl.b_waitret, gate_max);
+                            wait_flag(&fl.l0_returned, gate_max);
+                            commit(rd, 2, 3001, &mut rng, &mut out);
+                            fl.a_returned.store(true, SeqCst);
+                        }
+                    }
+                    out.points = sched::leave();
+                    out
+                })
+            })
+            .collect();
+        hs.into_iter().map(|h| h.join().unwrap_or(ThreadOut::default())).collect()
+    });
+    let logv = std::mem::take(&mut *log.lock());
+    let params = format!("directed schedule (3 threads, default config, no random perturbation){}", if fail_in_t1 { ", the flush performed by T1 fails" } else { "" });
+    finish_round(&q, outs, logv, &sh, stalls0, round, params, format!("directed{}", fail_in_t1 as u8), true)
+}
+
+/// Observation only (outside the property's quantifier: Database uses the default config):
+/// latency of a lone committer under `GroupCommitConfig::high_throughput()` (min_batch_size 4, max_wait 5 ms).
+fn observe_high_throughput(timeout_ms: u64) -> Value {
+    turdb::verif::set_group_commit_timeout_ms(timeout_ms);
+    let q = GroupCommitQueue::new(GroupCommitConfig::high_throughput());
+    let pool = PageBufferPool::new(2);
+    let mut p: CommitPayload = SmallVec::new();
+    let mut b = pool.acquire().unwrap();
+    b[0] = 1;
+    p.push((1, 1, b, 1));
+    let t = Instant::now();
+    let r = q.submit_and_wait(p);
+    let ms = t.elapsed().as_millis() as u64;
+    let took = q.take_pending();
+    if let Some(batch) = &took {
+        q.complete_batch(batch);
+    }
+    json!({"config": "high_throughput (min_batch_size=4, max_wait_us=5000)", "wait_timeout_override_ms": timeout_ms, "lone_committer_submit_and_wait_ms": ms, "result_ok": r.is_ok(), "note": "the waiter sleeps on flush_complete for the whole wait timeout (30 s in production) because nothing wakes it when max_wait_us elapses; not judged: Database uses the default config (min_batch_size=1)"})
+}
+
+#[derive(Default)]
+struct Agg {
+    c: BTreeMap<&'static str, u64>,
+    viols: Vec<Viol>,
+    viol_sig_counts: BTreeMap<String, u64>,
+    fps: HashSet<u64>,
+    nontrivial: HashSet<u64>,
+    strata: HashSet<String>,
+    samples: Vec<Value>,
+    points: BTreeMap<&'static str, u64>,
+    trivial_rounds: u64,
+    rounds_reproducing: u64,
+}
+
+fn merge(g: &mut Agg, r: RoundOut) {
+    for (k, v) in r.ck.c {
+        *g.c.entry(k).or_insert(0) += v;
+    }
+    for v in r.ck.viols {
+        *g.viol_sig_counts.entry(v.sig.clone()).or_insert(0) += 1;
+        let have = g.viols.iter().filter(|x| x.sig == v.sig).count();
+        if have < 2 && g.viols.len() < 48 {
+            g.viols.push(v);
+        }
+    }
+    g.fps.insert(r.fp);
+    if r.overlapped && r.events > 0 {
+        g.nontrivial.insert(r.fp);
+    } else {
+        g.trivial_rounds += 1;
+    }
+    if r.reproduced {
+        g.rounds_reproducing += 1;
+    }
+    g.strata.insert(r.strat);
+    if let Some(s) = r.sample {
+        g.samples.push(s);
+    }
+    for (n, c) in r.points {
+        *g.points.entry(n).or_insert(0) += c;
+    }
+}
+
+pub fn run(a: &Args) -> i32 {
+    let miri = cfg!(miri);
+    let mut ctx = Ctx::new(
+        "C37",
+        &a.tier,
+        a.seed,
+        "exploration",
+        "a case = one round: a fresh GroupCommitQueue (default / low_latency / max_batch_size=2 config, all with min_batch_size=1 as Database uses) and 2..8 real threads each doing 3..40 emulated execute_small_commit calls (submit_and_wait -> take_pending -> flush to a harness log -> complete_batch/fail_batch), payloads of 1..3 pooled page buffers carrying a unique id; flush failures injected only in ~40% of rounds; random nothing|yield|spin|sleep at the library's yield points (gc.enqueued, gc.wait_returned, gc.marked_completed) and at harness points (before take_pending, before/inside the flush, before complete). Offline checker over the merged call/return/write event list. Plus two directed rounds that steer three threads into 'the elected leader's payload is taken by an already-finished committer'. distinct_nontrivial = distinct interleaving fingerprints of rounds in which >= 2 threads were inside the emulated commit at a yield-point event",
+    );
+    sched::install();
+    let quick = ctx.quick();
+    let hb = sched::start_heartbeat();
+    let mut agg = Agg::default();
+    // observation on the non-default preset (not judged)
+    if !miri {
+        let obs = observe_high_throughput(if quick { 400 } else { 1500 });
+        ctx.extra.insert("observation_high_throughput_preset".into(), obs);
+    }
+    // a lost wake-up / stuck committer must show within seconds, not after the library's 30 s
+    let timeout_ms = if miri { 0 } else { 2500 };
+    turdb::verif::set_group_commit_timeout_ms(timeout_ms);
+    // directed rounds
+    let mut directed_repro = vec![];
+    for (i, fail) in [false, true].into_iter().enumerate() {
+        let r = run_directed(a.seed, 1_000_000 + i as u64, fail);
+        directed_repro.push(json!({"flush_of_T1_fails": fail, "ack_before_write_or_unreported_failure_observed": r.reproduced}));
+        ctx.eval();
+        merge(&mut agg, r);
+    }
+    ctx.extra.insert("directed_rounds".into(), json!(directed_repro));
+    let cores = std::thread::available_parallelism().map(|n| n.get()).unwrap_or(4);
+    let (lanes, rounds, budget_s) = if miri { (1usize, 3u64, 3600u64) } else if quick { ((cores / 4).clamp(1, 4), 1500u64, 34u64) } else { ((cores / 3).clamp(1, 6), 150_000u64, 400u64) };
+    let deadline = Instant::now() + Duration::from_secs(budget_s);
+    let seed = a.seed;
+    let (agg, done, hit) = sched::run_lanes(lanes, rounds, deadline, agg, |i| run_round(seed, i, quick), |g: &mut Agg, _i, r: RoundOut| merge(g, r));
+    sched::stop_heartbeat(hb);
+    turdb::verif::set_group_commit_timeout_ms(0);
+    ctx.evals(done);
+    for h in &agg.nontrivial {
+        ctx.nontrivial(*h);
+    }
+    for (k, v) in &agg.c {
+        ctx.count(k, *v);
+    }
+    ctx.count("rounds", done + 2);
+    ctx.count("rounds_trivial_no_overlap", agg.trivial_rounds);
+    ctx.count("rounds_with_ack_before_write_or_unreported_failure", agg.rounds_reproducing);
+    ctx.count("environment_stalls_seen_by_heartbeat", sched::stalls());
+    for s in agg.samples.iter().take(4) {
+        ctx.sample(s.clone());
+    }
+    let mut seen = HashSet::new();
+    for v in agg.viols.iter().filter(|v| seen.insert(v.sig.clone())) {
+        ctx.violation(v.assertion, &v.sig, v.detail.clone());
+    }
+    ctx.extra.insert("distinct_interleaving_fingerprints".into(), json!(agg.fps.len()));
+    ctx.extra.insert("yield_point_events".into(), json!(agg.points));
+    ctx.extra.insert("strata_seen".into(), json!(agg.strata.len()));
+    ctx.extra.insert("failed_sub_assertions_by_signature".into(), json!(agg.viol_sig_counts));
+    ctx.extra.insert("lanes".into(), json!(lanes));
+    ctx.extra.insert("wall_budget_hit".into(), json!(hit));
+    ctx.extra.insert("group_commit_wait_timeout_override_ms".into(), json!(timeout_ms));
+    ctx.assumptions.push("'told it succeeded' = the emulated execute_small_commit returns Ok (after its own take_pending/flush/complete step), exactly as transaction.rs does; the WAL is a harness log, so WAL I/O itself is not part of this check".into());
+    ctx.assumptions.push("ordering is judged by a global sequence counter: a return event is stamped after the call returned and a write event while the log mutex is held, so 'write seq > Ok-return seq' proves the write happened after the return".into());
+    ctx.assumptions.push("a 'group commit timeout' (override 2.5 s) is judged only when the harness heartbeat saw no scheduler stall in that round, and only if the event list shows that nobody had taken the commit (or its batch had already completed)".into());
+    ctx.assumptions.push("interleavings are sampled by perturbation (plus two directed schedules), not enumerated".into());
+    ctx.exhaustive = Some(false);
+    ctx.finish()
 }
